@@ -1,4 +1,4 @@
 Require Extraction.
 Require Import ExtrOcamlBasic.
-From V Require Import Sem Prod Incl TrimDefs CandDefs.
-Extraction "ex_c15.ml" cand_gate candidate_ok cand_sub ta_same is_empty.
+From V Require Import Sem Prod Incl TrimDefs CandDefs CandModel.
+Extraction "ex_c15.ml" cand_gate candidate_ok cand_sub ta_same is_empty cand_model.
